@@ -143,10 +143,13 @@ def ob_effect_predicate(r, tier, seed, depth):
     for key, (desc, why) in found.items():
         ok, detail = (False, '')
         if key == 'div-judged-pure':
-            src = 'fn zero() -> int32 { 0 }\nfn main() -> unit {\n  let z = zero();\n  let a = 10 / z;\n  string_println("after")\n}\n'
-            go = compile_program(src); body = go[go.find('func main0'):]
-            ok = 'func main0' in go and '/' not in body.split('func main()')[0]
-            detail = 'goml program `let z = zero(); let a = 10 / z; string_println("after")`: emitted main0 contains no division: ' + body.split('func main()')[0][:300].replace('\n', ' | ')
+            # the path condition leaves the operand type open: try the division at every integer type through the real compiler
+            for t, suf in (('int32', ''), ('int8', 'i8'), ('int16', 'i16'), ('int64', 'i64'), ('uint8', 'u8'), ('uint16', 'u16'), ('uint32', 'u32'), ('uint64', 'u64')):
+                src = 'fn zero() -> %s { 0%s }\nfn main() -> unit {\n  let z = zero();\n  let a = 10%s / z;\n  string_println("after")\n}\n' % (t, suf, suf)
+                go = compile_program(src); body = go[go.find('func main0'):]
+                ok = 'func main0' in go and '/' not in body.split('func main()')[0]
+                detail = 'goml program `let z: %s = zero(); let a = 10%s / z; string_println("after")`: emitted main0 %s: ' % (t, suf, 'contains no division' if ok else 'keeps the division') + body.split('func main()')[0][:300].replace('\n', ' | ')
+                if ok: break
         if key == 'effect-judged-pure':
             import re as _re
             m_ = _re.search(r"Expr#3\['([A-Za-z_][A-Za-z0-9_]*)'", json.dumps(desc))
@@ -180,7 +183,11 @@ class LiftGen:
         opts = [o for o in opts if o in s.forms or o in ('bvar', 'bcall')]
         k = s.ex.choose([(True, o) for o in opts])
         if k == 'bvar': return s.var('b%d' % me, 'TBool'), []
-        if k == 'bcall': return s.call('p%d' % me, [], 'TBool'), [('call', 'p%d' % me)]
+        if k == 'bcall':
+            if 'reads' in s.forms or 'read1' in s.forms:
+                nm = s.ex.choose([(True, 'p%d' % me)] + [(True, x) for x in (READS if 'reads' in s.forms else READS[:1])])
+                if nm in READS: return s.call(nm, [s.var('c%d' % me), s.var('i%d' % me)], 'TBool'), [('call', 'read')]
+            return s.call('p%d' % me, [], 'TBool'), [('call', 'p%d' % me)]
         if k == 'not':
             e, t = s.boolean(depth - 1); return s.L('EUnary', op=Agg(s.UOP.key, s.UOP.vindex('Not'), []), expr=mkbox(e), ty=s.ty('TBool')), t
         if k == 'less':
@@ -190,6 +197,16 @@ class LiftGen:
         e = s.L('EBinary', op=Agg(s.BOP.key, s.BOP.vindex('And' if k == 'and' else 'Or'), []), lhs=mkbox(a), rhs=mkbox(b), ty=s.ty('TBool'))
         # short-circuit: the right operand runs only when the left one does not decide the result
         return e, ta + ([('if', tb, []) if k == 'and' else ('if', [], tb)] if tb else [])
+    def go_tail(s):
+        """unit-typed body whose tail (possibly under let / if) is `go <closure>`"""
+        clty = s.ty('TStruct', mkstr('closure_env_0'))
+        go = s.L('EGo', expr=mkbox(s.L('EVar', name=mkstr('cl'), ty=clty)), ty=s.ty('TUnit'))
+        unit = s.L('EPrim', value=Agg(s.PR.key, s.PR.vindex('Unit'), [UNIT_]), ty=s.ty('TUnit'))
+        k = s.ex.choose([(True, o) for o in ('tail', 'let-tail', 'if-tail', 'seq')])
+        if k == 'tail': return go, [('go',)]
+        if k == 'let-tail': return s.L('ELet', name=mkstr('x1'), value=mkbox(s.call('g1', [])), body=mkbox(go), ty=s.ty('TUnit')), [('call', 'g1'), ('go',)]
+        if k == 'if-tail': return s.L('EIf', cond=mkbox(s.var('b1', 'TBool')), then_branch=mkbox(go), else_branch=mkbox(unit), ty=s.ty('TUnit')), [('if', [('go',)], [])]
+        return s.L('ELet', name=mkstr('u1'), value=mkbox(go), body=mkbox(s.L('ELet', name=mkstr('x1'), value=mkbox(s.call('g1', [])), body=mkbox(unit), ty=s.ty('TUnit'))), ty=s.ty('TUnit')), [('go',), ('call', 'g1')]
     def expr(s, depth):
         """int-typed expression + trace"""
         s.n += 1; me = s.n
@@ -248,6 +265,11 @@ class LiftGen:
             return s.L('ELet', name=mkstr('w%d' % me), value=mkbox(w), body=mkbox(s.var('v%d' % me)), ty=s.ty('TInt32')), [('while', tc, tb)]
         raise Unsupported(k)
 
+READS = ('vec_get', 'array_get', 'string_get')      # builtin element reads: can fail (index out of range), so they are effects
+def trace_name(nm):
+    if any(nm == x or nm.startswith(x + '_') for x in READS): return 'read'          # the backend may inline a read as an index expression or call a specialised helper
+    return nm if (nm[0] in 'fghkp' and not nm.startswith('t')) else '<value>'
+
 def anf_trace(W, a):
     AE = W.tt.find_adt(['anf', 'AExpr'], 'compiler'); CE = W.tt.find_adt(['anf', 'CExpr'], 'compiler'); IE = W.tt.find_adt(['anf', 'ImmExpr'], 'compiler')
     def T(a):
@@ -260,11 +282,12 @@ def anf_trace(W, a):
         n = CE.variants[c.idx].name; f = dict(zip([x[0] for x in CE.variants[c.idx].fields], c.fields))
         if n == 'ECall':
             fn = f['func']; nm = ms.pystr(fn.fields[0]) if IE.variants[fn.idx].name == 'ImmVar' else '?'
-            return [('call', nm if nm[0] in 'fghkp' and not nm.startswith('t') else '<value>')]
+            return [('call', trace_name(nm))]
         if n == 'EIf': return [('if', T(f['then']), T(f['else_']))]
         if n == 'EWhile': return [('while', T(f['cond']), T(f['body']))]
         if n == 'EMatch': return [('match', [T(arm.fields[1]) for arm in f['arms'].items], T(f['default'].fields[0]) if f['default'].idx == 1 else None)]
-        if n in ('EDynCall', 'EGo'): return [(n,)]
+        if n == 'EGo': return [('go',)]
+        if n == 'EDynCall': return [(n,)]
         return []
     return T(a)
 
@@ -294,9 +317,10 @@ def ob_anf_order(r, tier, seed, depth, forms, top):
         if top == 'call':
             a1, t1 = g.expr(depth); a2, t2 = g.expr(depth)
             body = g.call('f', [a1, a2]); src = t1 + t2 + [('call', 'f')]
+        elif top == 'go': body, src = g.go_tail()
         else:
             body, src = g.boolean(depth + 1)
-        fn = Agg(LF.key, 0, [mkstr('main'), PyVec([]), g.ty('TInt32'), body])
+        fn = Agg(LF.key, 0, [mkstr('main'), PyVec([]), g.ty('TInt32') if top != 'go' else g.ty('TUnit'), body])
         h = {0: Agg('compiler::env::Gensym', 0, [Cell_(0)])}
         res = ex.call('anf::anf_file', [Opaque('liftenv'), Ref(h, 0), Agg(LFILE.key, 0, [PyVec([fn])])])
         afile = res.fields[0]; afn = afile.fields[0].items[0]
@@ -523,7 +547,7 @@ def go_trace(W, g, stmts, env=None, in_switch=False):
         if n == 'Call':
             for a in f['args'].items: calls(a, out)
             fn = unbox(f['func']); nm = ms.pystr(fn.fields[0]) if GE.variants[fn.idx].name == 'Var' else '<value>'
-            out.append(('call', nm if nm[0] in 'fghkp' and not nm.startswith('t') else '<value>'))
+            out.append(('call', trace_name(nm)))
         elif n == 'BinaryOp': calls(f['lhs'], out); calls(f['rhs'], out)
         elif n in ('UnaryOp', 'Cast'): calls(f['expr'], out)
         elif n == 'FieldAccess': calls(f['obj'], out)
@@ -531,7 +555,7 @@ def go_trace(W, g, stmts, env=None, in_switch=False):
             for x in f['fields'].items: calls(x.fields[1], out)
         elif n == 'ArrayLiteral':
             for x in f['elems'].items: calls(x, out)
-        elif n == 'Index': calls(f['array'], out); calls(f['index'], out)
+        elif n == 'Index': calls(f['array'], out); calls(f['index'], out); out.append(('call', 'read'))
         elif n == 'Block': raise Unsupported('go trace: expression block')
     out = []
     for st in stmts:
@@ -559,7 +583,7 @@ def go_trace(W, g, stmts, env=None, in_switch=False):
             arms = [go_trace(W, g, cb.fields[1].fields[0].items, None, True) for cb in f['cases'].items]
             d = go_trace(W, g, f['default'].fields[0].fields[0].items, None, True) if f['default'].idx == 1 else None
             out.append(('match', arms, d))
-        elif n == 'Go': out.append(('go',))
+        elif n == 'Go': out.append(('go',))       # the spawned call itself (closure_apply) is not an effect of this function
         else: raise Unsupported('go trace: statement ' + n)
     return out
 
@@ -571,14 +595,21 @@ def ob_go_lowering(r, tier, seed, depth, forms, top):
     r.assumptions = ['oracle: the structural call trace of the emitted Go function (calls in statement order, if/else and loop bodies as sub-traces, loop = statements before / after the exit test) equals the source trace; in particular a `while` condition is evaluated inside the loop before the exit test',
                      'empty global environments (no enums/structs/traits): forms that need them are outside this obligation']
     for n in list(W.methods.get('from_lift_env', [])): W.stubs[n[1]] = lambda ex, a: Opaque('anfenv')
+    CAF = [a for a in W.tt.by_name.get('ClosureApplyFn', []) if a.crate == 'compiler']
+    TYa = W.tt.find_adt(['tast', 'Ty'], 'compiler')
+    def stub_apply(ex, a):
+        ct = ex.deref(a[1]); unit = Agg(TYa.key, TYa.vindex('TUnit'), [])
+        return ms.some(Agg(CAF[0].key, 0, [mkstr('closure_apply'), Agg(TYa.key, TYa.vindex('TFunc'), [PyVec([ct]), mkbox(unit)]), unit]))
+    if CAF: W.stubs['find_closure_apply_fn'] = stub_apply
     def entry(ex):
         lg = LiftGen(W, ex, forms)
         if top == 'call':
             a1, t1 = lg.expr(depth); a2, t2 = lg.expr(depth)
             body = lg.call('f', [a1, a2]); src = t1 + t2 + [('call', 'f')]
+        elif top == 'go': body, src = lg.go_tail()
         else:
             body, src = lg.boolean(depth + 1)
-        fn = Agg(LF.key, 0, [mkstr('main'), PyVec([]), lg.ty('TInt32') if top == 'call' else lg.ty('TBool'), body])
+        fn = Agg(LF.key, 0, [mkstr('main'), PyVec([]), lg.ty('TInt32') if top == 'call' else (lg.ty('TUnit') if top == 'go' else lg.ty('TBool')), body])
         h = {0: Agg('compiler::env::Gensym', 0, [Cell_(0)])}
         res = ex.call('anf::anf_file', [Opaque('liftenv'), Ref(h, 0), Agg(LFILE.key, 0, [PyVec([fn])])])
         afn = res.fields[0].fields[0].items[0]
@@ -604,15 +635,17 @@ def obligations():
     obs = [Ob('O9.1-effect-predicate-d1', 'DCE effect predicate is sound, depth 1', ob_effect_predicate, ('quick', 'thorough'), 2, dict(depth=1)),
            Ob('O9.1-effect-predicate-d2', 'DCE effect predicate is sound, depth 2', ob_effect_predicate, ('quick', 'thorough'), 10, dict(depth=2))]
     obs += [Ob('O9.3-anf-order-call-d1', 'ANF keeps the source effect trace: f(A1, A2), depth 1', ob_anf_order, ('quick', 'thorough'), 3, dict(depth=1, forms=['call1', 'call2', 'callcall', 'add', 'if', 'let', 'tuple', 'while', 'whilematch', 'unitop', 'and', 'or', 'not', 'less'], top='call')),
-            Ob('O9.3-anf-order-bool-d1', 'ANF keeps short-circuit evaluation of && / ||', ob_anf_order, ('quick', 'thorough'), 3, dict(depth=1, forms=['and', 'or', 'not', 'less', 'call1'], top='bool')),
+            Ob('O9.3-anf-order-bool-d1', 'ANF keeps short-circuit evaluation of && / ||', ob_anf_order, ('quick', 'thorough'), 3, dict(depth=1, forms=['and', 'or', 'not', 'less', 'call1', 'reads'], top='bool')),
             Ob('O9.3-anf-order-call-d2', 'ANF keeps the source effect trace: f(A1, A2), depth 2', ob_anf_order, ('thorough',), 100, dict(depth=2, forms=['call1', 'callcall', 'add', 'if', 'let', 'and', 'or'], top='call'))]
     obs += [Ob('O9.2-block-dce-2', 'block-level DCE preserves effects and the returned value: 2 statements + return', ob_block_dce, ('quick', 'thorough'), 3, dict(nstmts=2, depth=0)),
             Ob('O9.2-block-dce-3', 'block-level DCE: 3 statements + return', ob_block_dce, ('thorough',), 20, dict(nstmts=3, depth=0)),
             Ob('O9.2-block-dce-if', 'block-level DCE: 1 statement, then if/else with one assignment or call per branch, + return', ob_block_dce, ('quick', 'thorough'), 20, dict(nstmts=1, depth=1, forms=('atom', 'call', 'div'))),
             Ob('O9.2-block-dce-constif', 'block-level DCE: 1 statement, then if/else with a literal condition and 2 statements per branch, + return', ob_block_dce, ('quick', 'thorough'), 30, dict(nstmts=1, depth=1, forms=('call',), conds=('true', 'false'), branch_n=2)),
             Ob('O9.2-block-dce-if2', 'block-level DCE: 2 statements, then if/else, + return', ob_block_dce, ('thorough',), 200, dict(nstmts=2, depth=1, forms=('atom', 'call')))]
+    obs += [Ob('O9.3-anf-order-go', 'ANF keeps a `go` in tail / let / if position', ob_anf_order, ('quick', 'thorough'), 1, dict(depth=0, forms=[], top='go')),
+            Ob('O9.4-go-lowering-go', 'Go lowering emits the go statement for a `go` in tail / let / if position', ob_go_lowering, ('quick', 'thorough'), 1, dict(depth=0, forms=[], top='go'))]
     obs += [Ob('O9.4-go-lowering-call-d1', 'Go lowering keeps the effect trace: f(A1, A2), depth 1 (incl. while / if / let)', ob_go_lowering, ('quick', 'thorough'), 10, dict(depth=1, forms=['call1', 'add', 'if', 'let', 'while', 'whilematch', 'unitop', 'and', 'or', 'not', 'less'], top='call')),
-            Ob('O9.4-go-lowering-bool-d1', 'Go lowering keeps short-circuit branches', ob_go_lowering, ('quick', 'thorough'), 5, dict(depth=1, forms=['and', 'or', 'not', 'less'], top='bool'))]
+            Ob('O9.4-go-lowering-bool-d1', 'Go lowering keeps short-circuit branches', ob_go_lowering, ('quick', 'thorough'), 5, dict(depth=1, forms=['and', 'or', 'not', 'less', 'read1'], top='bool'))]
     return obs
 
 META = {
